@@ -18,7 +18,7 @@ func (r *rtRun) clientLoop(c *rtClient) {
 	for op := range c.cmd {
 		res := r.exec(c, op)
 		c.mu.Lock()
-		c.status, c.result = "returned", res
+		c.status, c.result, c.retAt = "returned", res, r.stepNo // the scheduler step in which the call returned
 		c.mu.Unlock()
 	}
 }
@@ -548,7 +548,10 @@ func (r *rtRun) perform(rng *RNG, a rtAction, cfg rtConfig) bool {
 	case "ack":
 		res := a.c.result
 		r.logf("client %d %s returned %s", a.c.id, a.c.op.Kind, res)
-		r.returns = append(r.returns, rtReturn{client: a.c.id, op: a.c.op, res: res, step: r.stepNo})
+		a.c.mu.Lock()
+		retAt := a.c.retAt
+		a.c.mu.Unlock()
+		r.returns = append(r.returns, rtReturn{client: a.c.id, op: a.c.op, res: res, step: r.stepNo, retAt: retAt})
 		if a.c.op.Kind == "done" && res == "nil" {
 			if r.doneOK == nil {
 				r.doneOK = map[int]bool{}
@@ -607,7 +610,8 @@ type rtReturn struct {
 	client int
 	op     rtOp
 	res    string
-	step   int
+	step   int // the step in which the harness acknowledged the result
+	retAt  int // the step in which the call itself returned (results are acknowledged later, in any order)
 }
 
 // shutdown: cancel the Config context, then every client context, and run everything to the end.
